@@ -59,6 +59,9 @@ def gen_cfg(rng):
     if rng.random() < 0.25:
         cfg["rename"] = [[rng.randint(0, nres - 1),
                           rng.choice(["HID", "HIE", "HIP", "ASH", "GLH", "LYN", "CYM", "HSD"])]]
+    if rng.random() < 0.4 and nres >= 6:
+        k = rng.choice([2, 2, 3]) if nres >= 9 else 2
+        cfg["chains"] = rng.sample(["A", "B", "C", "D", "X", "Q", "a", "b", "1", "2"], k)
     argv = []
     r = rng.random()
     if r < 0.12:
@@ -91,10 +94,14 @@ def gen_cfg(rng):
         argv.append("--pdb-output={pdbout}")
     if rng.random() < 0.08:
         argv.append("--apbs-input={apbsout}")
-    if rng.random() < 0.12 and ff:
+    if rng.random() < 0.15 and ff:
         argv.append("--ligand={ligand}")
-        cfg.setdefault("files", {})["ligand"] = rng.choice(["1US0-ligand.mol2",
-                                                            "1QBS-ligand.mol2", "ethanol.mol2"])
+        lig = rng.choice(["1US0-ligand.mol2", "1QBS-ligand.mol2", "ethanol.mol2", "adp.mol2"])
+        cfg.setdefault("files", {})["ligand"] = lig
+        if rng.random() < 0.75:
+            # hetero atoms for the ligand path to parameterise
+            cfg["lig_het"] = lig
+            cfg["lig_resname"] = rng.choice(["LIG", "LDT", "DMP"])
     if rng.random() < 0.08:
         cfg["input_mode"] = "pdbid"
     cfg["argv"] = argv
